@@ -23,7 +23,7 @@ PLANS = {
                      J('spawn', [16], 1, thorough_only=True), J('spawn', [2, 4], 1, 'nosteal', thorough_only=True),
                      J('spawn', [2, 4], 1, 'cbsteal', thorough_only=True), J('spawn', [2, 4], 1, 'randsteal', thorough_only=True), S('joinrace', [2, 4], 1)]},
     'C02': {'jobs': [J('park', W124, 4), J('park', [2], 1, 'asan'), S('parkrace', [2, 4], 2)]},
-    'C05': {'jobs': [J('mutex', W124, 2), J('mutexc', W124, 2), J('mutexc', [2, 4], 1, 'asan'), S('hsmutex', [2, 4], 2), S('lockrace', [2, 4], 1)]},
+    'C05': {'jobs': [J('mutex', W124, 2), J('mutexc', W124, 2), J('mutexc', [2, 4], 1, 'asan'), S('hsmutex', [2, 4], 2), S('lockrace', [2, 4], 2)]},
     'C06': {'jobs': [J('chan', W124, 4), J('chan', [2], 2, 'asan'), S('chanrace', [1, 2, 4], 2)]},
     'C07': {'jobs': [J('dis', W124, 3), J('disrx', W124, 1), J('dis', [2], 1, 'asan'), S('disrace', W124, 2)]},
     'C08': {'jobs': [J('tmr', W124, 3), J('tmrmix', W124, 1), J('tmr', [2, 4], 1, 'asan'), S('tmrrace', W124, 2)]},
